@@ -19,7 +19,8 @@ CONSTANTS BoundedWalk,   \* TRUE: the link_map walk stops after MaxLinkMaps entr
 
 SpClass  == {"none", "in_stack", "guard", "unmapped", "top_page", "misaligned", "zero"}
 IpClass  == {"interior", "first_bytes", "last_bytes", "unmapped", "zero", "max"}
-PhnumClass == {"true", "zero", "larger", "huge"}
+PhnumClass == {"true", "zero", "larger", "huge", "alloc_huge"}   \* huge: count * entry size overflows; alloc_huge: it does not, but no such buffer can be allocated
+AppClass == {"none", "small", "unmapped", "len_over_isize", "len_64TiB"}   \* a caller-requested memory region
 PhdrClass == {"true", "unmapped", "unaligned"}
 VaddrClass == {"le_base", "gt_base"}
 DynClass == {"terminated", "unterminated"}
@@ -28,9 +29,9 @@ NameClass == {"plain", "dev", "version_multibyte", "no_version", "many_component
 BytesClass == {"elf", "non_elf", "elf_corrupt", "elf_undyn"}   \* elf_undyn: an image whose dynamic section has no DT_NULL within its declared size
 NDyn == 3                                                       \* entries of a module's dynamic section before its end / DT_NULL
 Input == [sp : SpClass, ip : IpClass, phnum : PhnumClass, phdr : PhdrClass, vaddr : VaddrClass, dyn : DynClass,
-          list : ListClass, name : NameClass, bytes : BytesClass]
+          list : ListClass, name : NameClass, bytes : BytesClass, app : AppClass]
 Base == [sp |-> "none", ip |-> "interior", phnum |-> "true", phdr |-> "true", vaddr |-> "le_base", dyn |-> "terminated",
-         list |-> "acyclic", name |-> "plain", bytes |-> "elf"]
+         list |-> "acyclic", name |-> "plain", bytes |-> "elf", app |-> "none"]
 Dims == DOMAIN Base
 (* all inputs that differ from the benign base vector in at most two dimensions *)
 NearBase == {i \in Input : Cardinality({d \in Dims : i[d] # Base[d]}) <= 2}
@@ -50,7 +51,9 @@ Go(next) == pc' = next /\ UNCHANGED <<inp, outcome, opened, cur, count, dynpos>>
    unset too, and the linker data that is followed is the real program's, whatever the synthetic chain looks like *)
 Real(i)       == i.phnum = "zero"
 EffList(i)    == IF Real(i) THEN "acyclic" ELSE i.list
-PhdrFails(i)  == ~Real(i) /\ (i.phdr # "true" \/ i.phnum \in {"larger", "huge"})
+PhdrFails(i)  == ~Real(i) /\ (i.phdr # "true" \/ i.phnum \in {"larger", "huge", "alloc_huge"})
+(* a caller-requested region that cannot be copied is a hard error of the dump: an error value, nothing else *)
+AppFails(i)   == i.app \in {"unmapped", "len_over_isize", "len_64TiB"}
 BaseFails(i)  == ~Real(i) /\ i.vaddr = "gt_base"
 DynFails(i)   == ~Real(i) /\ i.dyn = "unterminated"
 WalkFails(i)  == EffList(i) = "dangling"
@@ -58,7 +61,12 @@ NamesFail(i)  == EffList(i) = "name_nonutf8"
 DsoFails(i)   == PhdrFails(i) \/ BaseFails(i) \/ DynFails(i) \/ WalkFails(i) \/ NamesFail(i)
 (* get_stack_info on the crash stack pointer: Ok(region) or Err(NoStackPointerMapping); never anything else *)
 StackStep == pc = "stack" /\ Go("ipwindow") /\ UNCHANGED softErrs
-IpWindow  == pc = "ipwindow" /\ Go("phdr") /\ UNCHANGED softErrs
+IpWindow  == pc = "ipwindow" /\ Go("appmem") /\ UNCHANGED softErrs
+(* copy_from_process(ptr, length): the buffer for `length` bytes is requested fallibly; failure to get it, or to read, is Err *)
+AppMem    == /\ pc = "appmem"
+             /\ IF AppFails(inp) THEN pc' = "done" /\ outcome' = "err" /\ UNCHANGED <<inp, opened, cur, count, dynpos>>
+                ELSE Go("phdr")
+             /\ UNCHANGED softErrs
 (* dso_debug: read AT_PHNUM program headers at AT_PHDR *)
 PhdrStep  == /\ pc = "phdr"
              /\ IF ~PhdrFails(inp)
@@ -97,13 +105,14 @@ SoScan    == /\ pc = "soscan"
                     THEN UNCHANGED <<pc, outcome, dynpos>>                          \* skip the undecodable entry, ask for the next: the same one
                     ELSE pc' = "done" /\ outcome' = "ok" /\ UNCHANGED dynpos         \* DT_NULL, or the lookup gives up with an error value (no SONAME)
              /\ UNCHANGED <<inp, softErrs, opened, cur, count>>
-Next == StackStep \/ IpWindow \/ PhdrStep \/ BaseStep \/ DynScan \/ Walk \/ Names \/ Modules \/ SoScan
+Next == StackStep \/ IpWindow \/ AppMem \/ PhdrStep \/ BaseStep \/ DynScan \/ Walk \/ Names \/ Modules \/ SoScan
 Spec == Init /\ [][Next]_vars /\ WF_vars(Next)
 
 Total == outcome \in {"running", "ok", "err"}
+HardErrorIsAppMem == pc = "done" => (outcome = "err") = AppFails(inp)
 NoDevOpen == inp.name = "dev" => opened = {}
 Terminates == <>(pc = "done")
 WalkBounded == BoundedWalk => count <= MaxLinkMaps
 (* the step machine and the closed form agree on when the linker-data stream fails softly *)
-DsoFailsIsTheSteps == pc \in {"soscan", "done"} => (("WriteDSODebugStreamFailed" \in softErrs) = DsoFails(inp))
+DsoFailsIsTheSteps == pc \in {"soscan", "done"} /\ outcome # "err" => (("WriteDSODebugStreamFailed" \in softErrs) = DsoFails(inp))
 =============================================================================
